@@ -445,7 +445,7 @@ class SpectrumEditScenario(Scenario):
                    'bin-centre sets for the power-preservation clause start and end on sample points; Simpson bins are judged for sign only on '
                    'uniform centres over uniformly sampled data with linear sampling, as the statement says',
                    'scipy.integrate.simpson is trusted as the reference for Simpson totals']
-    must_hit = ['crop:ulp', 'nonfinite_pad', 'refused:resample', 'refused:append', 'crop:at-sample', 'crop:between', 'pad:inside', 'pad:outside',
+    must_hit = ['crop:ulp', 'nonfinite_pad', 'integer_wavelength_grid', 'refused:resample', 'refused:append', 'crop:at-sample', 'crop:between', 'pad:inside', 'pad:outside',
                 'bin:trapz/symmetric/pp', 'bin:trapz/inside/raw', 'bin:simps/symmetric/raw', 'bin:simps/inside/pp',
                 'bin_linear_exact', 'bin_power', 'nonuniform_grid', 'idem', 'query_repeated_after_edit', 'shared_buffers',
                 'query_repeated_after_caller_write', 'foreign_unit_query_repeated_after_edit', 'bin_one_option_flipped', 'crop:disjoint', 'query_repeated_after_value_assignment']
@@ -498,6 +498,10 @@ class SpectrumEditScenario(Scenario):
             events.append({'c': c, 'fn': 'Spectrum', 'id': sid, 'a': ['@' + sid + '_w', '@' + sid + '_v'], 'k': {'waveunit': unit, 'valueunit': vunit}})
             events.append({'c': c, 'fn': 'Spectrum', 'id': sid + '_twin', 'a': ['@' + sid + '_w', '@' + sid + '_v'], 'k': {'waveunit': unit, 'valueunit': vunit}})
             events.append({'c': c, 'fn': 's*', 'id': sid + '_x2', 'a': ['@' + sid, 2.0]})
+        elif unit == 'nm' and rng.random() < 0.3:
+            # a grid typed in as whole nanometres: an integer-typed wavelength array
+            events.append({'c': c, 'fn': 'Spectrum', 'id': sid, 'a': [[int(w) for w in wave], value], 'k': {'waveunit': unit, 'valueunit': vunit},
+                           't': {'integer_grid': True}})
         else:
             events.append({'c': c, 'fn': 'Spectrum', 'id': sid, 'a': [wave, value], 'k': {'waveunit': unit, 'valueunit': vunit}})
         m = MS(wave, value, unit, vunit)
@@ -952,6 +956,8 @@ class SpectrumEditScenario(Scenario):
             if fn == 'Spectrum' and out.ok and ev['id'].endswith('_twin'):
                 it.probe('shared_buffers')
                 it.fault('alias')
+            if fn == 'Spectrum' and out.ok and np.asarray(out.value.wave).dtype.kind in 'iu':
+                it.probe('integer_wavelength_grid')
             if fn == 'Spectrum' and out.ok:
                 w = np.asarray(out.value.wave, dtype=float)
                 if w.size > 2 and not np.allclose(np.diff(w), np.diff(w)[0], rtol=1e-9, atol=0):
